@@ -202,6 +202,7 @@ def run(ctx, rep):
         else:
             _field_width(rep, P, F, pr, a + b)
             _relr_eligible_table(rep, F)
+            _symbolic_field_width(rep, P, F, pr)
             atoms = decision_atoms(P, F, pr, a, b)
             en = [x for x in atoms if render(x[1]).startswith("is_relr_enabled(")]
             par = [x for x in atoms if x not in en]
@@ -539,6 +540,81 @@ def _no_raw(rep, P, F):
                     if dbi in reach and ("raw_value" in dv or "plt_address" in dv) and "write_address_relocation" not in dv:
                         raws.append((pr.blocks[dbi]["t"].get("l"), dv))
     rep.ob("no-raw-address", "process_resolution", len(avoid) >= 2 and not raws, "on the (is_address, relocatable) edges every GOT word comes from write_address_relocation or is 0 with a symbol-based relocation" if not raws else f"raw GOT stores: {raws}", pr.file, pr.line)
+
+
+def _symbolic_field_width(rep, P, F, pr):
+    """Sibling of relative-field-width for interposable symbols: a direct absolute reference from a writable section to a symbol resolved at run time becomes a
+    symbolic dynamic relocation (R_X86_64_64 & co.), which also rewrites a whole 8-byte word (genuine defect, fixed in /repo 711ed45: `.long foo` with -shared)."""
+    import decide
+    rep.rule("symbolic-field-width", "in process_relocation the RELA_DYN_GENERAL reservation for a direct reference to an interposable symbol from a writable section is, on the "
+             "kind == Absolute path, reached only through the ByteSize(8) test of the relocation's size, whose failing side ends in an error")
+    flow, cfg = P.flow(pr), P.cfg(pr)
+    full = decide.all_edge_atoms_full(P, F, pr)
+    ef = cfg.edge_facts()
+    site = None
+    for bi, t in flow.calls():
+        if not any(((op_const(a) or {}).get("def") or "").endswith("part_id::RELA_DYN_GENERAL") for a in t["args"]):
+            continue
+        facts_ = {str(full[e][0]): full[e][1] for e in ef.get(bi, ()) if e in full}
+        if any("needs_direct" in k and v is True for k, v in facts_.items()) and any("is_interposable" in k and v is True for k, v in facts_.items()) \
+                and any("is_writable" in k and v is True for k, v in facts_.items()):
+            site = (bi, t)
+    if site is None:
+        rep.lost("symbolic-field-width", "the RELA_DYN_GENERAL reservation under needs_direct && interposable && writable")
+        return
+    abi, at = site
+    # the kind == Absolute test inside that region, and the ByteSize(8) tests
+    abs_sw = []
+    for sb in cfg.reach:
+        t = pr.blocks[sb]["t"]
+        if t["k"] != "switch":
+            continue
+        src = switch_source_call(pr, flow, sb)
+        if src and (src[0].endswith("PartialEq>::eq") or src[0].endswith("PartialEq::eq")):
+            leaves = set()
+            for a in src[2]["args"]:
+                leaves |= flow.deep_origins(a)
+            if any(x[0] == "agg" and str(x[1]).endswith("RelocationKind::Absolute") for x in leaves) or any(x[0] == "const" and "Absolute" in str(x[2]) for x in leaves):
+                labs = switch_bool_labels(pr, flow, cfg, sb)
+                for lab, v in labs.items():
+                    if v is True:
+                        for l2, tgt in cfg.succ[sb]:
+                            if l2 == lab and abi in cfg.reachable_from(tgt):
+                                abs_sw.append((sb, tgt))
+    size_sw = [sb for sb in cfg.reach if pr.blocks[sb]["t"]["k"] == "switch" and pr.blocks[sb]["t"]["d"][0] != "k"
+               and "@ByteSize" in pr.blocks[sb]["t"]["d"][1][1] and pr.blocks[sb]["t"]["d"][1][1][-1:] == [".0"] and any(c == 8 for c, _t in pr.blocks[sb]["t"]["arms"])]
+    tested = False
+    # blocks that are only entered knowing `size == ByteSize(8)` (edge facts see through the boolean that `matches!` materialises)
+    W = {x for x, fs in ef.items() if any((sb, 8) in fs for sb in size_sw)}
+    # ... and edges of a switch on such a boolean whose value is only assigned in those blocks (the edge may lead straight into a join)
+    avoid_e = set()
+    for S, m in cfg._phi_bools().items():
+        t = pr.blocks[S]["t"]
+        listed = {v for v, _ in t["arms"]}
+        for lab, _to in cfg.succ[S]:
+            val = False if lab == 0 else True if lab == 1 else (True if (lab == "else" and listed == {0}) else False if (lab == "else" and listed == {1}) else None)
+            defs = m.get(val, []) if val is not None else []
+            if defs and all(d in W for d in defs):
+                avoid_e.add((S, lab))
+    for sb, tgt in abs_sw:
+        if abi not in cfg.reachable_avoiding_edges(tgt, avoid_e, avoid_blocks=W) and any(x in cfg.reachable_from(tgt) for x in size_sw):
+            tested = True
+    rep.ob("symbolic-field-width", "size-tested", tested,
+           "on the kind == Absolute path the reservation is reached only through a test of the size against ByteSize(8)" if tested else
+           "the reservation for a symbolic dynamic relocation is reachable on the kind == Absolute path without testing the field width: a 4-byte absolute reference to a symbol resolved "
+           "at run time gets an 8-byte R_*_64 relocation and the loader overwrites the bytes after the field", pr.file, at["l"])
+    # the failing side is an error: from the non-8 edges an Err return is reachable without passing the reservation
+    err_ok = False
+    for sb in size_sw:
+        t = pr.blocks[sb]["t"]
+        non8 = [to for c, to in t["arms"] if c != 8] + [t["else"]]
+        for to in non8:
+            r = cfg.reachable_avoiding_edges(to, set(), avoid_blocks={abi})
+            for x in r:
+                for st in pr.blocks[x]["s"]:
+                    if st["k"] == "assign" and st["p"] == [0, []] and st["rv"]["k"] == "agg" and st["rv"].get("variant") == "Err":
+                        err_ok = True
+    rep.ob("symbolic-field-width", "narrow-is-error", err_ok, "a field that is not 8 bytes wide leads to an error return", pr.file, at["l"])
 
 
 def _relr_eligible_table(rep, F):
